@@ -768,6 +768,42 @@ def _cw_nfa_fn(ctx, v, NR, b, S, want):
                       "table) must not depend on the order of registration; resize args %s, effects %s" % ([show(s_["args"][1]) for s_ in rs], eff))
 
 
+def rule_builder_config(ctx, R):
+    """BLD-CONF: builder setters store their argument in the field of the same name; a new builder is Standard with an
+    empty state vector; num_free_blocks refuses 0."""
+    lib = ctx.lib
+    for v in R.variants():
+        if not v.ok:
+            continue
+        tag = v.tag
+        nb = lib.one_body(adt=v.builder, name="new")
+        if nb is not None:
+            t = pnorm(FnView(lib, nb).root.ret())
+            f = dict(t[3]) if t[0] == "agg" else {}
+            ctx.check(f.get("match_kind", ("x",))[0] == "agg" and f["match_kind"][2] == "Standard", "BLD-CONF", nb, "default-kind:" + tag, nb.span,
+                      "a new builder builds a Standard automaton unless told otherwise")
+            nf = f.get("num_free_blocks", ("x",))
+            ctx.check(nf[0] == "const" and isinstance(nf[1], int) and nf[1] >= 1, "BLD-CONF", nb, "default-free-blocks:" + tag, nb.span,
+                      "the default num_free_blocks must be >= 1; found %s" % show(nf))
+        for setter, field in (("match_kind", "match_kind"), ("num_free_blocks", "num_free_blocks")):
+            sb = lib.one_body(adt=v.builder, name=setter)
+            if sb is None:
+                ctx.missing("BLD-CONF", "%s::%s" % (v.builder, setter))
+                continue
+            S = Sites(lib, sb)
+            ws = [s_ for s_ in S.stores] + []
+            # `mut self` by value: the field write is a partial write of the local, visible in the returned term
+            t = pnorm(S.root.ret())
+            part = [x for x in members(t) if x[0] == "partial"]
+            ok = any(x[1] == (field,) and m(Par(2), x[2]) for x in part) or any(m(F(Par(1), field), s_["tgt"]) and m(Par(2), s_["val"]) for s_ in ws)
+            ctx.check(ok, "BLD-CONF", sb, "setter:%s:%s" % (setter, tag), sb.span,
+                      "%s(x) must store x in self.%s and return the builder; returns %s" % (setter, field, show(t)[:120]))
+            if setter == "num_free_blocks":
+                sw = switches_on(S.root, lambda d: d[0] == "bin" and d[1] in ("Ge", "Gt", "Ne", "Lt", "Le", "Eq") and any(x[0] == "param" and x[1] == 2 for x in (d[2], d[3])))
+                panics = [s_["bb"] for s_ in S.calls if s_["key"].startswith("core::panicking::")]
+                ctx.check(len(sw) >= 1 and bool(panics), "BLD-CONF", sb, "rejects-zero:" + tag, sb.span, "num_free_blocks(0) must be refused (documented panic)")
+
+
 def rule_build_entry(ctx, R, NR, BR, rules=None):
     """STAT-NS(builder), B-MOVE, VALID-CONV, VALID-ENTRY, VAL-IDX, VALID-PROP on the entry points."""
     lib = ctx.lib
